@@ -667,6 +667,105 @@ def rule_reinit(ctx, rep, by_loc):
                          loc(model.unit_of(w.fi), w.node))
 
 
+MEMO_DECORATORS = ('lru_cache', 'cache', 'cached', 'memoize', 'memoized')
+
+
+def rule_memo(ctx, rep):
+    """A memoised function is process-global state of its own. It is harmless only if the function is a pure
+    function of its arguments: here, if nothing it can reach reads state that the library changes at call time
+    (the classified locations above, including the standard-library module patched during inline parsing)."""
+    model = ctx.model
+    cg = ctx.callgraph()
+    rule = 'R-STATE-INVENTORY'
+    # readers of classified mutable state
+    patched_modules = {l[len('module:'):].rsplit('.', 1)[0] for l in CLASSIFICATION if l.startswith('module:')
+                       and not l[len('module:'):].startswith(PKG)}
+    names = {}
+    for l in CLASSIFICATION:
+        kind, rest = l.split(':', 1)
+        names.setdefault(rest.rsplit('.', 1)[-1] if kind == 'module' else rest.split('.')[-1], l)
+    readers = {}
+    for fi in model.functions.values():
+        for n in walk_function(fi.node):
+            if isinstance(n, ast.Attribute) and isinstance(n.ctx, ast.Load):
+                r = model.resolve_expr(fi.modname, n.value) if isinstance(n.value, (ast.Name, ast.Attribute)) else None
+                if isinstance(r, ModuleRef) and not r.internal and r.modname in patched_modules:
+                    readers.setdefault(fi.qualname, 'calls into the standard-library module %s, which is patched during inline parsing' % r.modname)
+                if n.attr in names and (isinstance(r, (ModuleRef, ClassInfo)) or (isinstance(n.value, ast.Name) and n.value.id in ('cls', 'self'))):
+                    readers.setdefault(fi.qualname, 'reads %s' % names[n.attr])
+            elif isinstance(n, ast.Name) and isinstance(n.ctx, ast.Load) and n.id in names and names[n.id].startswith('module:%s.' % fi.modname):
+                readers.setdefault(fi.qualname, 'reads %s' % names[n.id])
+    for fi in model.functions.values():
+        memo = None
+        for d in fi.node.decorator_list:
+            f = d.func if isinstance(d, ast.Call) else d
+            nm = f.attr if isinstance(f, ast.Attribute) else f.id if isinstance(f, ast.Name) else None
+            if nm in MEMO_DECORATORS:
+                memo = nm
+        if memo is None:
+            continue
+        rep.instance(rule)
+        reach = cg.reachable([fi])
+        why = next((readers[q] for q in [fi.qualname] + sorted(reach) if q in readers), None)
+        ok = why is None
+        rep.obligation(rule, ok, {'memoised function': fi.short, 'decorator': memo, 'depends on call-time state': why})
+        if not ok:
+            rep.find(rule, fi.short, 'memo:' + memo,
+                     'new hidden state: %s is memoised with %s but is not a function of its arguments alone - it %s; a result computed '
+                     'in one state is handed out in another, across documents and renderers' % (fi.short, memo, why),
+                     loc(model.unit_of(fi), fi.node))
+
+
+def rule_must_refresh(ctx, rep, by_loc=None, rule='D-HANDOFF'):
+    """The consumer of a hand-off buffer runs once per scanned string, right after the token type whose find()
+    drives the producer. That find() must call the producer on every path: a path that skips it (a fast path for
+    text without markup) leaves the consumer with what an earlier string put there."""
+    from ..interp import Interp, enumerate_paths, Raised, LoopTruncated, Unknown
+    from ..domains import AbsStr, install_rx_hooks
+    model = ctx.model
+    cg = ctx.callgraph()
+    if by_loc is None:
+        by_loc = {}
+        for w in inventory(model):
+            by_loc.setdefault(w.location, []).append(w)
+    for l, (disc, _) in CLASSIFICATION.items():
+        if disc != 'D-HANDOFF':
+            continue
+        ws = by_loc.get(l, [])
+        producers = {w.fi.qualname: w.fi for w in ws if w.kind in ('mutate:append', 'mutate:extend', 'mutate:insert')}
+        for q, prod in sorted(producers.items()):
+            for cq in cg.callers_of(prod):
+                caller = model.functions.get(cq)
+                if caller is None or caller.cls is None or caller.name != 'find':
+                    continue
+                rep.instance(rule)
+                outcomes = []
+
+                def runner(oracle, caller=caller, prod=prod):
+                    it = Interp(model, loop_bound=1)
+                    it.reset_run(oracle)
+                    install_rx_hooks(it, [])
+                    called = []
+                    it.func_hooks[prod.qualname] = lambda interp, fi, args, kwargs: called.append(1) or Unknown('matches')
+                    try:
+                        it.call(it.getattr(caller.cls, caller.name), [AbsStr(label='string')], {})
+                    except (Raised, LoopTruncated):
+                        return None
+                    return bool(called)
+                for trace, res in enumerate_paths(runner, 64):
+                    if res is not None:
+                        outcomes.append((res, trace))
+                skipped = [t for r_, t in outcomes if not r_]
+                ok = bool(outcomes) and not skipped
+                rep.obligation(rule, ok, {'buffer': l, 'driver': caller.short, 'paths': len(outcomes), 'paths that skip the producer': len(skipped)})
+                if not ok:
+                    rep.find(rule, caller.short, 'skips-producer:' + prod.name,
+                             '%s can return without calling %s (decisions: %s): the buffer %s is not refreshed for this string and its '
+                             'consumer hands out the matches an earlier string left there'
+                             % (caller.short, prod.short, [(str(k)[:40], v) for k, v in (skipped[0] if skipped else [])][:4], l),
+                             loc(model.unit_of(caller), caller.node))
+
+
 def rule_mutable_defaults(ctx, rep):
     model = ctx.model
     rule = 'R-MUTABLE-DEFAULT'
@@ -718,6 +817,8 @@ def run(ctx):
     rule_override(ctx, rep, by_loc)
     rule_entry_rewrite(ctx, rep, by_loc)
     rule_handoff(ctx, rep, by_loc)
+    rule_must_refresh(ctx, rep, by_loc)
+    rule_memo(ctx, rep)
     rule_registry(ctx, rep, by_loc=by_loc)
     rule_reinit(ctx, rep, by_loc)
     rule_mutable_defaults(ctx, rep)
